@@ -12,10 +12,21 @@ for f in ("patch.diff", "demo.rs"):
         shutil.copyfile(os.path.join(src, f), os.path.join(dst, f))
 meta = json.load(open(os.path.join(src, "meta.json"))) if os.path.exists(os.path.join(src, "meta.json")) else {}
 res = json.load(open(os.path.join(src, "result.json")))
-ok = res.get("patch_applies") and res.get("demo_passes_unmodified") and res.get("demo_fails_with_patch") and res.get("suite_passes_with_patch")
+harmless = meta.get("kind") == "harmless"
+if harmless:
+    # a property-preserving change: the property sweeps of the demonstration must pass with the patch (only tests pinning
+    # the old, unspecified behaviour may fail) and the repository's suite must pass
+    ok = res.get("patch_applies") and res.get("demo_passes_unmodified") and res.get("harmless_sweeps_pass_with_patch") and res.get("suite_passes_with_patch")
+else:
+    ok = res.get("patch_applies") and res.get("demo_passes_unmodified") and res.get("demo_fails_with_patch") and res.get("suite_passes_with_patch")
 out = {
     "property": res["property"],
+    "kind": "property-preserving (the check must stay silent)" if harmless else "property-breaking (the check must report a violation)",
     "summary": meta.get("summary", ""),
+    "clause_broken": meta.get("clause_broken", ""),
+    "why_property_still_holds": meta.get("why_property_still_holds", ""),
+    "observable_difference": meta.get("observable_difference", ""),
+    "failing_example": meta.get("failing_example", ""),
     "needs": meta.get("needs", ""),
     "author_ran": meta.get("ran", []),
     "confirmed_by_coordinator": {
@@ -27,8 +38,14 @@ out = {
         "all_confirmed": bool(ok),
     },
     "quick_check_caught": res.get("caught"),
+    "quick_check_false_alarm": res.get("false_alarm") if harmless else None,
+    "demo_failed_tests_with_patch": res.get("demo_failed_tests_with_patch"),
+    "first_run_before_correction": res.get("first_run_before_correction"),
     "check_wall_s": res.get("check_s"),
     "first_replay": res.get("first_replay"),
 }
 json.dump(out, open(os.path.join(dst, "meta.json"), "w"), indent=1)
-print(name, "kept;", "confirmed" if ok else "NOT CONFIRMED", "; caught" if res.get("caught") else "; MISSED")
+if harmless:
+    print(name, "kept;", "confirmed" if ok else "NOT CONFIRMED", "; FALSE ALARM" if res.get("false_alarm") else "; silent")
+else:
+    print(name, "kept;", "confirmed" if ok else "NOT CONFIRMED", "; caught" if res.get("caught") else "; MISSED")
